@@ -15,9 +15,11 @@ FUNCS = ["abs", "sqrt", "exp", "log", "sin", "cos", "tan"]
 
 class G:
     """Generation context."""
-    def __init__(self, draw, dim, geo_dim, kind, inputs, params, funcs_ok=True):
+    def __init__(self, draw, dim, geo_dim, kind, inputs, params, funcs_ok=True, spacetime=False):
         self.draw = draw
         self.dim = dim
+        self.spacetime = spacetime
+        self.sdim = dim - 1 if spacetime else dim     # coordinates grad/hess/div act on
         self.geo_dim = geo_dim
         self.kind = kind          # volume | surface | boundary
         self.inputs = inputs      # list of decl dicts (may be appended)
@@ -111,8 +113,9 @@ def gen_scalar(g, depth):
             inp = g.get_input((), need_spline=True)
             para = (not g.phys_ok) or g.chance(0.4)
             if g.chance(0.3):
-                i, j = g.draw(st.integers(0, d - 1)), g.draw(st.integers(0, d - 1))
-                return ["idx", ["hess", ["input", inp["name"]], para], i, j]
+                i, j = g.draw(st.integers(0, g.sdim - 1)), g.draw(st.integers(0, g.sdim - 1))
+                # space-time forms implement first-order physical space derivatives only
+                return ["idx", ["hess", ["input", inp["name"]], para or g.spacetime], i, j]
             return ["dx", ["input", inp["name"]], g.draw(st.integers(0, d - 1)), para]
         return ["idx", ["jac"], g.draw(st.integers(0, g.geo_dim - 1)), g.draw(st.integers(0, d - 1))]
     k = g.pick(["+", "-", "*", "*", "/", "pow", "fn", "fn", "fnpair", "inner", "tr", "det", "idxv", "neg"])
@@ -169,7 +172,7 @@ def gen_vector(g, n, depth):
         leafs.append("x")
         if g.kind in ("surface", "boundary"):
             leafs += ["n", "n"]
-    if n == d:
+    if n == g.sdim:
         leafs.append("gradinput")
     if depth <= 0 or g.chance(0.35):
         k = g.pick(leafs)
@@ -209,7 +212,7 @@ def gen_matrix(g, shape, depth):
     leafs = ["param", "input", "lit"] + (["var"] if depth >= 1 else [])
     if shape == (g.geo_dim, d):
         leafs += ["jac", "jac"]
-    if n == d:
+    if n == g.sdim:
         leafs.append("gradinput")
     if depth <= 0 or g.chance(0.4):
         k = g.pick(leafs)
@@ -284,6 +287,60 @@ def gen_bfun_op(g, name, nc):
     if k == "div":
         return ["div", bf, para], ()
     return ["curl", bf], (3,)
+
+
+def gen_st_bfun_op(g, name, nc):
+    """Space-time forms (time = last coordinate): operators on basis function `name`, total derivative order <= 2,
+    physical space derivatives of first order only (all that pyiga's space-time splitting implements)."""
+    d = g.dim
+    sd = g.sdim
+    bf = [name]
+    kx = g.draw(st.integers(0, sd - 1))
+    if not nc:
+        k = g.pick(["id", "dt", "dt", "dt2", "dx", "dxpara", "dtpara", "grad", "grad", "gradpara", "graddt", "dxdt", "hesspara"])
+        if k == "id":
+            return bf, ()
+        if k == "dt":
+            return ["dt", bf, 1], ()
+        if k == "dt2":
+            return ["dt", bf, 2], ()
+        if k == "dx":
+            return ["dx", bf, kx, False], ()
+        if k == "dxpara":
+            return ["dx", bf, kx, True], ()
+        if k == "dtpara":
+            return ["dx", bf, d - 1, True], ()
+        if k == "grad":
+            return ["grad", bf, False], (sd,)
+        if k == "gradpara":
+            return ["grad", bf, True], (sd,)
+        if k == "graddt":
+            return ["dt", ["grad", bf, False], 1], (sd,)
+        if k == "dxdt":
+            return ["dt", ["dx", bf, kx, False], 1], ()
+        return ["hess", bf, True], (sd, sd)
+    ops = ["id", "comp", "dt", "dt2", "grad", "dxv", "dcomp", "dcompdt"]
+    if nc == sd:
+        ops += ["div", "div"]
+    k = g.pick(ops)
+    c = g.draw(st.integers(0, nc - 1))
+    if k == "id":
+        return bf, (nc,)
+    if k == "comp":
+        return ["idx", bf, c], ()
+    if k == "dt":
+        return ["dt", bf, 1], (nc,)
+    if k == "dt2":
+        return ["idx", ["dt", bf, 2], c], ()
+    if k == "grad":
+        return ["grad", bf, g.chance(0.3)], (nc, sd)
+    if k == "dxv":
+        return ["dx", bf, kx, g.chance(0.3)], (nc,)
+    if k == "dcomp":
+        return ["dx", ["idx", bf, c], kx, g.chance(0.3)], ()
+    if k == "dcompdt":
+        return ["dt", ["dx", ["idx", bf, c], kx, False], 1], ()
+    return ["div", bf, g.chance(0.3)], ()
 
 
 def contract(g, a, sa, b, sb, depth):
@@ -384,6 +441,37 @@ def form(draw, dims=(1, 2, 3), max_terms=2, depth=2, kinds=("volume", "volume", 
 
 
 @st.composite
+def st_form(draw, dims=(2, 3), max_terms=2, depth=2, allow_vec=True):
+    """Space-time form (VForm(dim, spacetime=True)): time is the last coordinate (first tensor axis); the geometry is a
+    space-time cylinder (space map) x (t -> t + shift), the setting the space-time splitting is documented for."""
+    dim = draw(st.sampled_from(dims))
+    arity = draw(st.sampled_from([2, 2, 1]))
+    measure = draw(st.sampled_from(["dxm", "dxm", "dxm", "gw"]))
+    pm = 3 if dim < 3 else 2
+    kvs0 = [draw(gk.knotvec(pmin=2 if ax == 0 else 1, pmax=pm, nmin=1, nmax=2, decades=1, interval="unit")) for ax in range(dim)]
+    comps = None
+    if allow_vec and draw(st.integers(0, 2)) == 0:
+        comps = [draw(st.sampled_from([1, 2, dim - 1, dim])) for _ in range(arity)]
+    inputs, params = [], []
+    g = G(draw, dim, dim, "volume", inputs, params, spacetime=True)
+    terms = []
+    for _ in range(draw(st.integers(1, max_terms))):
+        nc = [(c if c and c > 1 else None) for c in (comps or [None] * arity)]
+        if arity == 2:
+            a, sa = gen_st_bfun_op(g, "u", nc[0])
+            b, sb = gen_st_bfun_op(g, "v", nc[1])
+            body = contract(g, a, sa, b, sb, depth)
+        else:
+            b, sb = gen_st_bfun_op(g, "v", nc[0])
+            body = contract1(g, b, sb, depth)
+        terms.append(["*", body, [measure]])
+    geo = draw(gg.geometry_map(dim - 1, pmax=2, nmax=2, orient_preserving=draw(st.booleans())))
+    geo["tshift"] = draw(st.sampled_from([0.0, 0.0, 1.0, -0.5]))
+    return {"dim": dim, "arity": arity, "kind": "volume", "spacetime": True, "comps": comps, "spaces": None, "kvs": [kvs0], "geo": geo,
+            "inputs": inputs, "params": params, "lets": g.lets, "terms": terms, "bd": None}
+
+
+@st.composite
 def nested_let_form(draw, levels=(2, 3)):
     """A form whose coefficient is a chain of user-defined variables w_{k} = op(w_{k-1}, ...): only the outermost variable
     is referenced from the integrand, the inner ones only from other variables' definitions."""
@@ -453,6 +541,30 @@ def build_data(spec):
     kvs_ref = [[gk.build_knots(k) for k in sp] for sp in spec["kvs"]]
     gs = spec["geo"]
     geo_py, geo_ref = gg.build_geometry(gs)
+    if spec.get("spacetime"):
+        # space-time cylinder: (space map of the last dim-1 tensor axes) x (identity + shift in time, first tensor axis)
+        C = np.asarray(geo_py.coeffs, dtype=float)
+        N = C.shape[:dim - 1]
+        if gs["nurbs"]:
+            W = C[..., -1]
+            pts = C[..., :-1] / W[..., None]
+        else:
+            W = None
+            pts = C
+        t = float(gs.get("tshift", 0.0)) + np.array([0.0, 1.0])
+        pts_c = np.zeros((2,) + N + (dim,))
+        pts_c[..., :dim - 1] = pts[None]
+        pts_c[..., dim - 1] = t.reshape((2,) + (1,) * (dim - 1))
+        tkv = {"p": 1, "breaks": [0.0, 1.0], "mults": []}
+        kn = [gk.build_knots(tkv)] + [gk.build_knots(k) for k in gs["kvs"]]
+        kvpy = (gk.pyiga_kv(tkv),) + tuple(geo_py.kvs)
+        if gs["nurbs"]:
+            W_c = np.broadcast_to(W[None], (2,) + N).copy()
+            geo_py = geometry.NurbsFunc(kvpy, pts_c.copy(), W_c.copy())
+            geo_ref = rg.RefSpline(kn, np.concatenate([pts_c * W_c[..., None], W_c[..., None]], axis=-1), nurbs=True)
+        else:
+            geo_py = bspline.BSplineFunc(kvpy, pts_c.copy())
+            geo_ref = rg.RefSpline(kn, pts_c)
     if gs.get("height") is not None:
         # append a height component (same knot vectors): graph surface / curve in dim+1 space
         C = np.asarray(geo_py.coeffs, dtype=float)
@@ -505,7 +617,10 @@ def build_vform(spec):
     dim = spec["dim"]
     kind = spec["kind"]
     geo_dim = dim + 1 if kind == "surface" else dim
-    vf = V.VForm(dim, geo_dim=geo_dim, boundary=(kind == "boundary"), arity=spec["arity"])
+    if spec.get("spacetime"):
+        vf = V.VForm(dim, arity=spec["arity"], spacetime=True)
+    else:
+        vf = V.VForm(dim, geo_dim=geo_dim, boundary=(kind == "boundary"), arity=spec["arity"])
     comps = spec.get("comps")
     spaces = spec.get("spaces")
     kw = {}
@@ -567,6 +682,8 @@ def build_vform(spec):
             return V.Dx(b(node[1]), int(node[2]), parametric=bool(node[3]))
         if op == "grad":
             return V.grad(b(node[1]), parametric=bool(node[2]))
+        if op == "dt":
+            return V.Dt(b(node[1]), int(node[2]))
         if op == "hess":
             return V.hess(b(node[1]), parametric=bool(node[2]))
         if op == "div":
